@@ -24,7 +24,7 @@ def execute(ctx, binp, cases, seed=None):
         outs = list(ex.map(lambda a: vlib.run_go(binp, ["-mode", "c05", "-seed", sd] + a[1], stdin_lines=cases), CONFIGS))
     recs = []
     for i, c in enumerate(cases):
-        cs = {k: v for k, v in c.items() if k not in ("jtree", "_seed")}
+        cs = {k: v for k, v in c.items() if k not in ("jtree", "pre", "_seed")}
         recs.append({"case": cs, "got": {CONFIGS[k][0]: outs[k][i]["got"] for k in range(len(CONFIGS))}})
     return recs
 
@@ -43,7 +43,7 @@ def run(ctx):
         allr += execute(ctx, binp, cases, sd)
         allc += [dict(c, _seed=sd) for c in cases]
     for c in allc:
-        key = {k: v for k, v in c.items() if k != "jtree"}
+        key = {k: v for k, v in c.items() if k != "jtree"}   # (pre stays in the key: it distinguishes the cases)
         ctx.note_case(key, nontrivial=(c["kind"] == "doc" and len(c["items"]) > 0) or (c["kind"] == "rt" and c["v"] not in ([], {})))
     ctx.evaluations = len(allc) * len(CONFIGS)
     ctx.samples = [allr[0]["case"], allr[-1]["case"]]
